@@ -257,6 +257,50 @@ def extract_pre():
     write_if_changed(os.path.join(GEN, "PreConsts.lean"), t)
     return 0
 
+def extract_linearizer():
+    """names minted by the linearizer and the message templates of LinearizationError (C08)
+    -> lean/Rooc/Gen/LinConsts.lean  [agent-c08proof]"""
+    errs = []
+    src = open(os.path.join(SRC, "transformers/linearizer.rs")).read()
+    ids = ("var_name", "positive_name", "selector", "witness_name")
+    # every `let <id> = ...` for the identifiers that are passed to declare_variable must be a format!("$..") literal
+    fmts = []
+    for m in re.finditer(r"let (var_name|positive_name|selector|witness_name) = (.*?);", src, re.S):
+        f = re.fullmatch(r'format!\(\s*"([^"]*)"\s*(?:,[^;]*)?\)', m.group(2).strip(), re.S)
+        if not f:
+            errs.append("binding of %s is not a format! literal: %s" % (m.group(1), m.group(2)[:60]))
+            continue
+        if f.group(1) not in fmts:
+            fmts.append(f.group(1))
+    calls = [c for c in re.finditer(r"\.declare_variable\(\s*([A-Za-z_]+)(?:\.clone\(\))?\s*,", src)]
+    for c in calls:
+        if c.group(1) not in ids:
+            errs.append("declare_variable called with an unexpected name expression: " + c.group(1))
+    if not fmts or not calls:
+        errs.append("auxiliary-name formats / declare_variable call sites")
+    # Display for LinearizationError: the string literals of the write! calls, continuation lines joined
+    m = re.search(r"impl Display for LinearizationError \{(.*?)\n\}\n", src, re.S)
+    tmpls = []
+    if m:
+        for w in re.finditer(r'write!\(\s*f,\s*"((?:[^"\\]|\\.)*)"', m.group(1), re.S):
+            t = re.sub(r"\\\n\s*", "", w.group(1))          # `\` + newline + indentation = continuation
+            t = t.replace('\\"', '"')
+            tmpls.append(t)
+    if len(tmpls) != 7:
+        errs.append("Display for LinearizationError: %d write! templates instead of 7" % len(tmpls))
+    if errs:
+        print("extractor could not re-read: " + "; ".join(errs))
+        return 1
+    lst = lambda xs: "[" + ", ".join(lstr(x) for x in xs) + "]"
+    t = "/- GENERATED by tools/extract.py from transformers/linearizer.rs — do not edit. -/\nnamespace Rooc.Gen\n"
+    t += "/-- the `format!` literals bound to the identifiers handed to `declare_variable` (every auxiliary name) -/\n"
+    t += f"def linAuxNameFormats : List String := {lst(fmts)}\n"
+    t += "/-- the `write!` templates of `impl Display for LinearizationError`, in the order of the enum -/\n"
+    t += f"def linErrorTemplates : List String := {lst(tmpls)}\n"
+    t += "end Rooc.Gen\n"
+    write_if_changed(os.path.join(GEN, "LinConsts.lean"), t)
+    return 0
+
 def main():
     errs = []
     # --- precedence / associativity tables of BinOp (math/operators.rs)
@@ -337,6 +381,9 @@ def main():
     if rc:
         return rc
     rc = extract_pre()
+    if rc:
+        return rc
+    rc = extract_linearizer()
     if rc:
         return rc
     # --- operator tables by runtime reflection through the harness (C18 / C19), see tools/gen_optables.py
